@@ -1161,10 +1161,27 @@ func (ss *ServerSession) handleRequestInner(sc *ServerConn, req *base.Request) (
 					th.ClientPorts = inTH.ClientPorts
 					th.ServerPorts = &[2]int{sc.s.udpRTPListener.port(), sc.s.udpRTCPListener.port()}
 				} else {
+					// the stream can be closed, together with its multicast writers,
+					// while the session is being set up.
+					stream.mutex.RLock()
+					mw := stream.medias[medi].multicastWriter
+					stream.mutex.RUnlock()
+
+					if mw == nil {
+						if ss.state == ServerSessionStateInitial {
+							ss.setuppedTransport = nil
+						}
+						ss.propsMutex.Unlock()
+
+						return &base.Response{
+							StatusCode: base.StatusBadRequest,
+						}, liberrors.ErrServerStreamClosed{}
+					}
+
 					th.Delivery = new(headers.TransportDeliveryMulticast)
 					th.TTL = new(uint(127))
-					th.Destination2 = new(stream.medias[medi].multicastWriter.ip.String())
-					th.Ports = &[2]int{stream.medias[medi].multicastWriter.rtpPort, stream.medias[medi].multicastWriter.rtcpPort}
+					th.Destination2 = new(mw.ip.String())
+					th.Ports = &[2]int{mw.rtpPort, mw.rtcpPort}
 				}
 
 			default: // TCP
